@@ -342,6 +342,8 @@ def main(prop: str, tier: str, seed: int, replay: str | None = None) -> int:
     if harness:
         for h in harness[:3]:
             print("HARNESS ERROR:\n" + h["traceback"], file=sys.stderr)
+            if h.get("case") is not None:
+                print("  case saved to " + write_failure(prop, "harness-error", h["case"], {"traceback": h["traceback"]}), file=sys.stderr)
         return 2
     if sum(inconclusive.values()) > 0.15 * max(1, evaluations):
         print("HARNESS ERROR: more than 15% of the cases were inconclusive: " + str(dict(inconclusive)), file=sys.stderr)
